@@ -112,7 +112,10 @@ Section LoopProofs.
     (exists c l k m, step st t = PErr (User c l k m)) \/
     exists st' kw cols toks b1,
       step st t = POk st' /\ ms_ok st' /\
-      m_adj _ st' = dset pos_eqb (m_adj _ st) (newstart_of st t) (dget_default Z.eqb (m_col _ st) (fst (tstart t)) 0) /\
+      m_adj _ st' = dsetdefault pos_eqb
+                      (dset pos_eqb (m_adj _ st) (newstart_of st t) (dget_default Z.eqb (m_col _ st) (fst (tstart t)) 0))
+                      (fst (tend t), snd (tend t) - dget_default Z.eqb cols (fst (tend t)) 0)
+                      (dget_default Z.eqb cols (fst (tend t)) 0) /\
       kw_part S st t (newstart_of st t) = (kw, cols, toks) /\ m_kw _ st' = kw /\ m_col _ st' = cols /\
       for_consume (m_fp _ st) t = POk (m_fp _ st', b1) /\
       ((b1 = true /\ m_res _ st' = m_res _ st /\ m_hp _ st' = m_hp _ st) \/
@@ -180,6 +183,13 @@ Proof.
   - destruct (eqb k' k0).
     + destruct H as [H | H]; [left; auto | right; right; exact H].
     + destruct H as [H | H]; [right; left; exact H |]. apply IH in H as [H | H]; auto. right. right. exact H.
+Qed.
+
+Lemma In_dsetdefault : forall {K V} (eqb : K -> K -> bool) (d : list (K * V)) k0 v0 k v,
+  In (k, v) (dsetdefault eqb d k0 v0) -> (k, v) = (k0, v0) \/ In (k, v) d.
+Proof.
+  intros K V eqb d k0 v0 k v H. unfold dsetdefault in H. destruct (dget eqb d k0); [right; exact H |].
+  apply in_app_or in H as [H | [H | []]]; [right; exact H | left; auto].
 Qed.
 
 Lemma dset_keys_nodup : forall {K V} (eqb : K -> K -> bool) (d : list (K * V)) k0 v0,
@@ -266,7 +276,8 @@ Section Structure.
     inv_ann_keys : forall k v, In (k, v) (fp_anns (m_fp _ st)) -> exists t, In t pre /\ is_for t = true /\ k = Some (tstart t);
     inv_for : fp_for (m_fp _ st) = None \/ exists t, In t pre /\ is_for t = true /\ fp_for (m_fp _ st) = Some (tstart t);
     inv_ann_nodup : NoDup (map fst (fp_anns (m_fp _ st)));
-    inv_adj : forall k v, In (k, v) (m_adj _ st) -> exists t, In t pre /\ tstart t = (fst k, snd k + v);
+    inv_adj : forall k v, In (k, v) (m_adj _ st) ->
+              exists t, In t pre /\ (tstart t = (fst k, snd k + v) \/ tend t = (fst k, snd k + v));
     inv_kw : forall k s, In (k, s) (m_kw _ st) ->
              exists t nk a, In t pre /\ ttyp t = T_NAME /\ keyword_of t = Some (nk, s) /\ tstart t = (fst k, snd k + a);
     inv_rew : Rew pre (m_res _ st ++ hp_toks (m_hp _ st));
@@ -311,11 +322,15 @@ Section Structure.
     assert (NoDup (map fst (fp_anns (m_fp S st2)))) as A3.
     { destruct ANN as [EQ | (p & v0 & FP & EQ)]; rewrite EQ; [assumption |].
       apply dset_keys_nodup; [apply opos_eqb_spec | assumption]. }
-    assert (forall k v, In (k, v) (m_adj S st2) -> exists t0, In t0 (pre ++ [t]) /\ tstart t0 = (fst k, snd k + v)) as A4.
-    { intros k v I. rewrite EA in I. apply In_dset in I as [I | I].
-      - injection I as -> ->. exists t. split; [apply in_last |]. unfold newstart_of. cbn [fst snd].
-        destruct (tstart t) as [l c]. cbn [fst snd]. f_equal. lia.
-      - destruct (IJ k v I) as (t0 & I0 & P0). exists t0. split; [apply in_snoc; assumption | assumption]. }
+    assert (forall k v, In (k, v) (m_adj S st2) ->
+            exists t0, In t0 (pre ++ [t]) /\ (tstart t0 = (fst k, snd k + v) \/ tend t0 = (fst k, snd k + v))) as A4.
+    { intros k v I. rewrite EA in I. apply In_dsetdefault in I as [I | I].
+      - injection I as -> ->. exists t. split; [apply in_last |]. right. cbn [fst snd].
+        destruct (tend t) as [l c]. cbn [fst snd]. f_equal. lia.
+      - apply In_dset in I as [I | I].
+        + injection I as -> ->. exists t. split; [apply in_last |]. left. unfold newstart_of. cbn [fst snd].
+          destruct (tstart t) as [l c]. cbn [fst snd]. f_equal. lia.
+        + destruct (IJ k v I) as (t0 & I0 & P0). exists t0. split; [apply in_snoc; assumption | assumption]. }
     assert (forall k s, In (k, s) (m_kw S st2) ->
             exists t0 nk a, In t0 (pre ++ [t]) /\ ttyp t0 = T_NAME /\ keyword_of t0 = Some (nk, s) /\ tstart t0 = (fst k, snd k + a)) as A5.
     { intros k s I. rewrite EK in I.
@@ -385,7 +400,7 @@ Section Structure.
     (forall k v, In (k, v) (fp_anns (m_fp _ st)) -> exists t, In t ts /\ is_for t = true /\ k = Some (tstart t)) /\
     NoDup (map fst (fp_anns (m_fp _ st))) /\
     (* modification offsets: key (line, col) with value adj is the token of the input that stood at (line, col + adj) *)
-    (forall k v, In (k, v) (m_adj _ st) -> exists t, In t ts /\ tstart t = (fst k, snd k + v)) /\
+    (forall k v, In (k, v) (m_adj _ st) -> exists t, In t ts /\ (tstart t = (fst k, snd k + v) \/ tend t = (fst k, snd k + v))) /\
     (* keyword translations: keyed by the (shifted) position of a NAME token of the input that is a vyper keyword *)
     (forall k s, In (k, s) (m_kw _ st) ->
        exists t nk a, In t ts /\ ttyp t = T_NAME /\ keyword_of t = Some (nk, s) /\ tstart t = (fst k, snd k + a)) /\
